@@ -93,6 +93,11 @@ def cases(ctx):
             g = gen.set_cell(tuple(tuple(F for _ in range(3)) for _ in range(3)), (1, 2), box)
             for act in range(8):
                 yield ([5], (g, (1, 1), o, gen.NONE), act, 'box-table')
+    for inner in gen.all_objects(depth=0)[:20]:
+        nested = (BOX_T, 0, 0, (BOX_T, 0, 0, inner))
+        for o in range(4):
+            g = gen.set_cell(tuple(tuple(F for _ in range(3)) for _ in range(3)), (1, 2), nested)
+            yield ([5], (g, (1, 1), o, gen.NONE), 6, 'nested-box')
     n = 600 if ctx.tier == 'quick' else 6000
     types = [gen.TY[t] for t in ('Floor', 'Wall', 'Door', 'Key', 'Box', 'Exit', 'MovingObstacle')]
     yield from tsuite.random_cases(ctx, n, focus=[4, 5, 4, 2], types=types, hi=5, floor_bias=0.35)
